@@ -318,6 +318,10 @@ def r2(c):
                 ok = idx(f["order"]) == [(0,)] and idx(f["order_direct"]) == [(1,)]
     c.check("C08.R2", ok, repo.loc(m, mp), "make_patch/order-fields", "item['order'] / item['order_direct'] are not the first two results of orderer.get_order for this row", key_text="fields")
     ok = bool(go) and len(go[0].args) >= 2 and norm(go[0].args[0]) == "row" and norm(go[0].args[1]) == "direct"
+    if ok:
+        # ... the row as the logic yielded it: the only definition reaching the question is the loop's own triple (a row rewritten in between — operator comments appended,
+        # case folded — would be ranked by rules that do not match what is actually ordered)
+        ok = all(d.kind in ("for", "unpack") and not (d.kind == "assign") for d in pv.rd.defs(go[0].args[0])) and all(d.kind in ("for", "unpack") for d in pv.rd.defs(go[0].args[1]))
     c.check("C08.R2", ok, repo.loc(m, go[0] if go else mp), "make_patch/get_order-args", "get_order is not asked about this row with this command's direct flag", key_text="go-args")
     oc = repo.func(PATCHING, "Orderer.order_config")
     srt = [x for x in calls_in(oc) if call_name(x) == "sorted"]
